@@ -464,6 +464,42 @@ func verifLemmaSchemaLookup(s Schema, token string) (interface{}, error, []byte)
 	return v, err, b
 }
 
+// the union types in their schema form (Schema != nil) encode as their schema does (…EncodesAsSchema) and answer pointer
+// tokens as their schema does: the lookup of the union is compared with the encoding of the schema (…Lookup)
+func verifLemmaSchemaOrBoolEncodesAsSchema(s SchemaOrBool) []byte {
+	b, err := s.MarshalJSON()
+	if err != nil {
+		return nil
+	}
+	return b
+}
+
+func verifLemmaSchemaOrStringArrayEncodesAsSchema(s SchemaOrStringArray) []byte {
+	b, err := s.MarshalJSON()
+	if err != nil {
+		return nil
+	}
+	return b
+}
+
+func verifLemmaSchemaOrBoolLookup(s SchemaOrBool, token string) (interface{}, error, []byte) {
+	v, err := s.JSONLookup(token)
+	b, merr := s.Schema.MarshalJSON()
+	if merr != nil {
+		return nil, nil, nil
+	}
+	return v, err, b
+}
+
+func verifLemmaSchemaOrStringArrayLookup(s SchemaOrStringArray, token string) (interface{}, error, []byte) {
+	v, err := s.JSONLookup(token)
+	b, merr := s.Schema.MarshalJSON()
+	if merr != nil {
+		return nil, nil, nil
+	}
+	return v, err, b
+}
+
 func verifLemmaPathItemLookup(p PathItem, token string) (interface{}, error, []byte) {
 	v, err := p.JSONLookup(token)
 	b, merr := p.MarshalJSON()
